@@ -187,13 +187,24 @@ def random_sched_trace(args):
 def run(ctx):
     global _NVAR
     _NVAR = ctx.pick(2, 4)
+    RICH_CB = '{"noop", "retval", "raise", "cancel", "failfut", "failcoro", "okcoro", "addcb", "addfut", "addto", "rm", "resolve"}'
+    RICH_TO = '{"noop", "raise", "failfut", "addcb", "addto", "rm", "resolve"}'
+    RICH_FUT = '{"noop", "raise", "addcb"}'
     ctx.mc("loop", "IOLoopSched", "MC_IOLoopSched.cfg",
+           overrides=ctx.pick({}, {"KindsCb": RICH_CB, "KindsTo": RICH_TO, "KindsFut": RICH_FUT, "Delays": "{0, 1, 2}",
+                                   "MaxNow": 3, "MaxIter": 4}),
            required_actions=["AddCallback", "AddTimeout", "AddFuture", "Resolve", "RemoveTimeout", "Advance", "Iterate"])
-    paths = ctx.gen_paths("loop", "Gen_IOLoopSched", "Gen_IOLoopSched.cfg")
-    progs = group_by_program(paths)
-    ctx.note("sched_programs", len(progs))
-    ctx.replay(progs, sched_replayer, label="s2c-sched",
-               nontrivial=lambda e, p: any(s["act"] == "iterate" for s in p))
+    runs = ctx.pick([{}],
+                    [{"KindsCb": RICH_CB, "KindsTo": RICH_TO, "KindsFut": RICH_FUT},
+                     {"NTop": 3, "KindsCb": '{"noop", "addcb"}', "KindsTo": '{"noop", "rm"}', "KindsFut": '{"noop"}'}])
+    nprog = 0
+    for ov in runs:
+        paths = ctx.gen_paths("loop", "Gen_IOLoopSched", "Gen_IOLoopSched.cfg", overrides=ov)
+        progs = group_by_program(paths)
+        nprog += len(progs)
+        ctx.replay(progs, sched_replayer, label="s2c-sched",
+                   nontrivial=lambda e, p: any(s["act"] == "iterate" for s in p))
+    ctx.note("sched_programs", nprog)
     # run_sync: every sequence of calls (function kind x duration x timeout) up to the bound
     ctx.mc("loop", "RunSync", "MC_RunSync.cfg", required_actions=["Call"])
     rs = group_by_program(ctx.gen_paths("loop", "Gen_RunSync", "Gen_RunSync.cfg",
